@@ -13,8 +13,8 @@
   Quirks kept on purpose:
     * a wrong MAC raises CryptoException, which `except ValueError` does NOT catch: the handler aborts, state unchanged;
       a malformed key (wrong length / low-order point) raises ValueError: the circuit is removed;
-    * the hop is appended BEFORE the candidate list is decrypted; if that fails the handler aborts with the hop
-      appended and the retry cache still in place;
+    * the hop is appended BEFORE the candidate list is decrypted; if that (or send_extend) fails the handler aborts with
+      the hop appended, no unverified hop and — since fix 4ca5f25 — no retry cache (the circuit then waits for the sweep);
     * the relay pairs a CREATED with its pending extend by the identifier and (since fix cc86df2) the reserved outgoing
       circuit id; the sender is ignored;
       since fix 172d874 it refuses to pair when the outgoing circuit id it reserved is meanwhile in use at this node.
@@ -101,7 +101,19 @@ def chooseTarget (me : Key) (c : Circ Sess) (cands : List Key) (env : Env) : Opt
       | some f => if exclude.contains f then (none, cands', false) else (some f, cands', true)
       | none => (none, cands', false)
 
-/-- send_extend(circuit, candidates, max_tries) ; `none` = remove_circuit("no candidates to extend") -/
+/-- a candidate key that cannot be parsed (the harness maps every such byte string to this symbol) -/
+def badKey : Key := 0
+
+/-- send_extend raises before writing anything: outside the required-exit branch it parses every non-excluded candidate -/
+def extendRaises (me : Key) (c : Circ Sess) (cands : List Key) : Bool :=
+  let becomeExit := c.goal == c.hops.length + 1
+  let exclude := c.hops.map Hop.peer ++ [me] ++ c.requiredExit.toList
+  !(becomeExit && c.requiredExit.isSome) && (cands.filter (fun k => !exclude.contains k)).contains badKey
+
+/-- send_extend(circuit, candidates, max_tries) ; `none` = remove_circuit("no candidates to extend").
+    Callers other than `ours` pass lists that were parsed before (retry caches keep the filtered list; the API is
+    assumed to be given parseable keys), so the raising case is modelled at the one call site that takes a list
+    straight from the network. -/
 def sendExtend (me : Key) (cid : Nat) (c : Circ Sess) (cands : List Key) (tries : Int) (env : Env) :
     Option (Circ Sess) × List (Out Tag Blob) :=
   let ch := chooseTarget me c cands env
@@ -125,6 +137,21 @@ def splitCands (l : List Key) : List Key × List Key :=
   | some r => r
   | none => (l, [])
 
+/-- the EXTENDING branch of `_ours_on_created_extended` once the candidate list `cl` has been decrypted: split it,
+    choose the sub-list, call send_extend with the tries of the (already popped) retry cache -/
+def extendAfterAccept (me : Key) (cid : Nat) (c1 : Circ Sess) (cl : List Key) (env : Env) :
+    Option (Circ Sess) × List (Out Tag Blob) :=
+  let (relayC, exitC) := splitCands cl
+  let becomeExit := c1.goal == c1.hops.length + 1
+  let chosen := if becomeExit then exitC else (if relayC.isEmpty then exitC else relayC)
+  let tries : Int := match c1.retry with
+    | some r => r.tries
+    | none => 1
+  -- send_extend parses every candidate it does not exclude (`key_from_public_bin`) before choosing: one
+  -- unparseable key (`badKey`) makes it raise; the hop stays appended, nothing else is written
+  if extendRaises me { c1 with retry := none } chosen then (some { c1 with retry := none }, [])
+  else sendExtend me cid { c1 with retry := none } chosen tries env
+
 /-- `_ours_on_created_extended(circuit_id, payload)` ; `none` = circuit removed -/
 def ours [DecidableEq Tag] (C : Crypto Tag Sess Blob) (me : Key) (cid : Nat) (c : Circ Sess)
     (key : Option Wire) (auth : Tag) (cands : Blob) (env : Env) : Option (Circ Sess) × List (Out Tag Blob) :=
@@ -141,15 +168,10 @@ def ours [DecidableEq Tag] (C : Crypto Tag Sess Blob) (me : Key) (cid : Nat) (c 
         let c1 : Circ Sess := { c with unverified := none, hops := c.hops ++ [⟨b, keys⟩] }
         if c1.hops.length < c1.goal then                   -- CIRCUIT_STATE_EXTENDING
           match C.dec keys cands with
-          | none => (some c1, [])                          -- decrypt/unpack raises after the hop was appended
-          | some cl =>
-            let (relayC, exitC) := splitCands cl
-            let becomeExit := c1.goal == c1.hops.length + 1
-            let chosen := if becomeExit then exitC else (if relayC.isEmpty then exitC else relayC)
-            let tries : Int := match c1.retry with
-              | some r => r.tries
-              | none => 1
-            sendExtend me cid { c1 with retry := none } chosen tries env
+          | none => (some { c1 with retry := none }, [])   -- decrypt/unpack (or send_extend) raises after the hop was
+                                                           -- appended; since fix 4ca5f25 the retry cache of the completed
+                                                           -- attempt has been popped before (it used to survive and fire)
+          | some cl => extendAfterAccept me cid c1 cl env
         else (some { c1 with retry := none }, [])          -- CIRCUIT_STATE_READY: pop the retry cache
 
 /-- RetryRequestCache timing out (the cache has been removed by the RequestCache before on_timeout runs) -/
